@@ -41,6 +41,7 @@ var targets = []string{
 	"MetadataCache.isCacheValid", "MetadataCache.Cleanup", "MetadataCache.GetMetadata",
 	"JWKCache.Cleanup", "JWKCache.GetJWKS",
 	"isValidLogLevel", "Config.Validate",
+	"SessionManager.getSessionOptions",
 	"SessionData.expireAccessTokenChunks", "SessionData.expireRefreshTokenChunks",
 	"SessionData.SetAccessToken", "SessionData.GetAccessToken", "SessionData.SetRefreshToken", "SessionData.GetRefreshToken",
 	"SessionData.GetCSRF", "SessionData.SetCSRF", "SessionData.GetNonce", "SessionData.SetNonce", "SessionData.GetCodeVerifier", "SessionData.SetCodeVerifier",
@@ -205,6 +206,10 @@ func leanType(t string) string {
 		return "Go.JwkCache"
 	case "cfg":
 		return "Go.Config"
+	case "sopt":
+		return "Go.SessOptions"
+	case "smgr":
+		return "Go.SessMgr"
 	case "hdrs":
 		return "(List Go.TemplatedHeader)"
 	case "hdr":
@@ -282,6 +287,9 @@ func goType(e ast.Expr) string {
 		if s, ok := t.X.(*ast.SelectorExpr); ok && src(s) == "http.Client" {
 			return "httpc"
 		}
+		if s, ok := t.X.(*ast.SelectorExpr); ok && src(s) == "sessions.Options" {
+			return "sopt"
+		}
 		if id, ok := t.X.(*ast.Ident); ok {
 			switch id.Name {
 			case "TraefikOidc":
@@ -306,6 +314,8 @@ func goType(e ast.Expr) string {
 				return "jcache"
 			case "Config":
 				return "cfg"
+			case "SessionManager":
+				return "smgr"
 			case "Logger":
 				return "logger"
 			}
@@ -496,6 +506,9 @@ func (c *ctx) expr(e ast.Expr) (string, string) {
 			if t == "jwk" {
 				return "(some " + s + ")", "jwkp"
 			}
+			if t == "soptv" {
+				return s, "sopt"
+			}
 		}
 	case *ast.BinaryExpr:
 		return c.binary(x)
@@ -542,6 +555,23 @@ func (c *ctx) expr(e ast.Expr) (string, string) {
 		}
 		fail(x, "unsupported slice form")
 	case *ast.CompositeLit:
+		if sel, ok := x.Type.(*ast.SelectorExpr); ok && src(sel) == "sessions.Options" {
+			// every field the library knows is written out: the ones the literal does not name have Go's zero value
+			fields := map[string]string{"HttpOnly": "false", "Secure": "false", "SameSite": "Go.SameSite.default", "MaxAge": "(0 : Int)", "Path": "([] : Go.Str)", "Domain": "([] : Go.Str)"}
+			for _, el := range x.Elts {
+				kv, ok := el.(*ast.KeyValueExpr)
+				if !ok {
+					fail(x, "composite literal without field names")
+				}
+				if _, known := fields[src(kv.Key)]; !known {
+					fail(x, "field %s of sessions.Options", src(kv.Key))
+				}
+				v, _ := c.expr(kv.Value)
+				fields[src(kv.Key)] = v
+			}
+			return "({ HttpOnly := " + fields["HttpOnly"] + ", Secure := " + fields["Secure"] + ", SameSite := " + fields["SameSite"] + ", MaxAge := " + fields["MaxAge"] +
+				", Path := " + fields["Path"] + ", Domain := " + fields["Domain"] + " } : Go.SessOptions)", "soptv"
+		}
 		if id, ok := x.Type.(*ast.Ident); ok && (id.Name == "CacheItem" || id.Name == "lruEntry") {
 			fields := map[string]string{}
 			for _, el := range x.Elts {
@@ -668,6 +698,14 @@ func (c *ctx) selector(x *ast.SelectorExpr) (string, string) {
 	switch src(x) {
 	case "time.Nanosecond", "time.Microsecond", "time.Millisecond", "time.Second", "time.Minute", "time.Hour":
 		return "Go." + x.Sel.Name, "dur"
+	case "http.SameSiteLaxMode":
+		return "Go.SameSite.lax", "samesite"
+	case "http.SameSiteStrictMode":
+		return "Go.SameSite.strict", "samesite"
+	case "http.SameSiteNoneMode":
+		return "Go.SameSite.none", "samesite"
+	case "http.SameSiteDefaultMode":
+		return "Go.SameSite.default", "samesite"
 	}
 	r, t := c.expr(x.X)
 	switch t + "." + x.Sel.Name {
@@ -708,6 +746,8 @@ func (c *ctx) selector(x *ast.SelectorExpr) (string, string) {
 	case "cfg.ProviderURL", "cfg.CallbackURL", "cfg.ClientID", "cfg.ClientSecret", "cfg.SessionEncryptionKey", "cfg.LogLevel", "cfg.RevocationURL",
 		"cfg.OIDCEndSessionURL", "cfg.PostLogoutRedirectURI", "hdr.Name", "hdr.Value":
 		return r + "." + x.Sel.Name, "str"
+	case "smgr.forceHTTPS":
+		return r + ".forceHTTPS", "bool"
 	case "cfg.ExcludedURLs":
 		return r + ".ExcludedURLs", "strs"
 	case "cfg.RateLimit", "cfg.RefreshGracePeriodSeconds":
@@ -1257,7 +1297,7 @@ func leanName(key string) string { return strings.Replace(key, ".", "_", 1) }
 
 // methodOf finds the translated method `name` of the Go type behind a type tag
 func methodOf(tag, name string) *fn {
-	goT := map[string]string{"inst": "TraefikOidc", "jwt": "JWT", "cache": "Cache", "tcache": "TokenCache", "mcache": "MetadataCache", "jcache": "JWKCache", "cfg": "Config", "sdata": "SessionData"}[tag]
+	goT := map[string]string{"inst": "TraefikOidc", "jwt": "JWT", "cache": "Cache", "tcache": "TokenCache", "mcache": "MetadataCache", "jcache": "JWKCache", "cfg": "Config", "smgr": "SessionManager", "sdata": "SessionData"}[tag]
 	if goT == "" {
 		return nil
 	}
